@@ -32,6 +32,22 @@ EDITS = [
     ("P6-hoist-in-GetRange", "preserving", "ds/str/str.go",
      "\tif start >= int64(len(s.V)) {\n\t\treturn nil\n\t}\n\tend += 1",
      "\tif start >= bl {\n\t\treturn nil\n\t}\n\tend += 1"),
+    # second batch, written after the fallback tactics of the first batch existed and NOT tuned afterwards
+    ("P7-negated-condition", "preserving", "ds/ds.go", "\tif n <= 0 {\n\t\treturn nil, ErrCorruptedData", "\tif !(n > 0) {\n\t\treturn nil, ErrCorruptedData"),
+    ("P8-range-to-indexed", "preserving", "ds/str/str.go",
+     "\tfor _, v := range s.V[start:end] {\n\t\tfor i := 0; i < 8; i++ {",
+     "\tw := s.V[start:end]\n\tfor j := 0; j < len(w); j++ {\n\t\tv := w[j]\n\t\tfor i := 0; i < 8; i++ {"),
+    ("P9-reorder-statements-2", "preserving", "storage/entry.go", "\tb[0] = e.Type\n\tcopy(b[1:], e.Value)", "\tcopy(b[1:], e.Value)\n\tb[0] = e.Type"),
+    ("P10-hoist-subexpression-2", "preserving", "ds/zset/skiplist.go",
+     "\treturn maxLevel - int16(bits.Len64(k+1)) + 1", "\tn := bits.Len64(k + 1)\n\treturn maxLevel - int16(n) + 1"),
+    ("P11-reorder-statements-3", "preserving", "internal/geohash/helper.go",
+     "\tx = (x | x<<s[5]) & b[4]\n\ty = (y | y<<s[5]) & b[4]\n", "\ty = (y | y<<s[5]) & b[4]\n\tx = (x | x<<s[5]) & b[4]\n"),
+    ("P12-swap-if-else-2", "preserving", "ds/str/str.go",
+     "\tend += 1\n\tif end <= 0 {\n\t\tend += bl\n\t}",
+     "\tend += 1\n\tif end > 0 {\n\t} else {\n\t\tend += bl\n\t}"),
+    ("P13-rename-local-2", "preserving", "ds/hash/hash.go",
+     "\tl, n := binary.Varint(b)\n\tb = b[n:]\n\tkey := string(b[:l])\n\treturn &keyValuePair{\n\t\tkey:   key,\n\t\tvalue: b[l:],",
+     "\tklen, used := binary.Varint(b)\n\tb = b[used:]\n\tname := string(b[:klen])\n\treturn &keyValuePair{\n\t\tkey:   name,\n\t\tvalue: b[klen:],"),
     ("S1-off-by-one-bound", "slip", "internal/strings/strings.go", "i < len(key); i++", "i < len(key)-1; i++"),
     ("S2-lt-vs-le", "slip", "ds/str/str.go", "\tend += 1\n\tif end <= 0 {", "\tend += 1\n\tif end < 0 {"),
     ("S3-wrong-constant", "slip", "internal/geohash/helper.go", "0x0F0F0F0F0F0F0F0F", "0x0F0F0F0F0F0F0F0E"),
@@ -84,7 +100,8 @@ def main():
         finally:
             shutil.rmtree(tmp, ignore_errors=True)
         print(f"{rows[-1][0]:28s} {rows[-1][1]:11s} {rows[-1][2]}  {' '.join(rows[-1][3])}", flush=True)
-    json.dump([{"name": a, "kind": b, "verdict": c, "broken": d} for a, b, c, d in rows], open(f"{ROOT}/docs/go2lean_robustness.json", "w"), indent=1)
+    if not want:
+        json.dump([{"name": a, "kind": b, "verdict": c, "broken": d} for a, b, c, d in rows], open(f"{ROOT}/docs/go2lean_robustness.json", "w"), indent=1)
     return 0 if ok else 1
 
 
